@@ -101,7 +101,11 @@ CLAIMS = {
         "every pair of the factory that is still free), _frame. Mechanism level (lean/AsphaltModel/Waiter.lean, the protocol of "
         "ComponentContext.get_resource over a bounded event queue): C06_waiter_invariant, C06_waiter_no_lost (for every "
         "interleaving of publications and waiter steps, with any queue size >= 1), C06_waiter_no_false, C06_waiter_monotone, "
-        "C06_waiter_cap_needed. " + STARTUP_NOTE,
+        "C06_waiter_cap_needed; with a caller that gives its wait up and may ask again (lean/AsphaltModel/WaiterGiveUp.lean: the "
+        "cancelled wait leaves the stream_events() block, which closes the stream and unsubscribes): C06_giveup_invariant, "
+        "_fresh, _forgets (the component is a fresh waiter again), _noop, _publish, _no_lost, _no_false - for every interleaving "
+        "of requests, publications, waiter steps and give-ups; the start-up harness generates such waits (three ticks in ten "
+        "are a get_resource() under move_on_after for a resource nobody publishes). " + STARTUP_NOTE,
         "The waiter protocol model is tied to the code only through the start-up runs (bursts of 10-120 publications inside "
         "one atomic section, the D6 class), not step by step; 'miss -> subscribe -> look again contains no checkpoint' is an "
         "assumption. 'As soon as' is decided on the implementation (virtual time of the return = max(request, publication)). "
@@ -157,9 +161,12 @@ CLAIMS = {
         "(block left normally or by an exception, scope cancelled during the directly registered asynchronous callback k) is "
         "`midStack`/`exitMid` (C01_midcancel_shape, _absent, _of_cancelled, _absent_exit, _all_invoked, _lifo, _before, "
         "_collected, _outcome_group, _surfaces, _closed_afterwards: what ran before ran as registered, k ends cancelled, "
-        "everything after it runs in the cancelled scope, nothing is lost, the cancellation surfaces in the group). " + KERNEL_NOTE,
-        "Partial: a cancellation arriving during a callback that was itself registered during the teardown, or during a "
-        "synchronous callback (no checkpoint: what the caller sees then depends on the back-end), shielded callbacks, and "
+        "everything after it runs in the cancelled scope, nothing is lost, the cancellation surfaces in the group). If k is "
+        "synchronous (it cancels the scope itself) it cannot be interrupted: C01_sync_midcancel_as_written (it ends as written), "
+        "_survives_cancel, _midcancel_invisible (no asynchronous callback left: the caller sees no cancellation), "
+        "_cancel_unaffected / _midcancel_unaffected / _midcancel_exit (a purely synchronous teardown is indifferent to "
+        "cancellation); generated by the harness as a synchronous callback calling scope.cancel(). " + KERNEL_NOTE,
+        "Partial: a cancellation arriving during a callback that was itself registered during the teardown, shielded callbacks, and "
         "callbacks that work before their first checkpoint are not in the model: not generated, not claimed. When every "
         "exception reaching the caller is a cancellation, their number and nesting are the back-end's (compared as one "
         "token). The Python class of the exception group and sys.exc_info() inside __aexit__ are implementation-side.",
@@ -211,7 +218,10 @@ CLAIMS = {
         "C13_closed_after_exit, C13_children_reported, C13_child_registered; for lookups *awaited* by teardown callbacks "
         "(Props/C13_body.lean) C13_closing_get_allowed, C13_body_get_is_get, C13_body_get_blocks_iff (it is get_resource "
         "where that does not suspend); C13_closed_flag_in_callback / _during_teardown (the flag a teardown callback reads is "
-        "true). The correspondence enumerates the whole matrix "
+        "true); several children of one parent (Props/C13_siblings.lean): C13_sibling_exit_removes_only_itself (+_mid), "
+        "_sibling_stays, _sibling_open_reported, _siblings_all_left (a child's exit removes that child and nothing else from "
+        "the parent's record). The correspondence enumerates the whole matrix, incl. two children of one parent coming and "
+        "going in every order, "
         "on both back-ends in both tiers. " + KERNEL_NOTE,
         "The roll-back to inactive after a failing __aenter__ has no trigger from the public API: not exercised.",
         "8/C13",
@@ -261,10 +271,15 @@ CLAIMS = {
     "C17": (
         "Theorems C17_lookup / C17_keys / C17_mem_keys / C17_wf / C17_none_* state the right-biased deep merge for all "
         "pairs of nested dictionaries (unbounded depth and width) about the Lean function `merge`; C17_not_associative is a "
-        "machine-checked witness that deep merging is not associative (why files are merged strictly in order); the correspondence "
+        "machine-checked witness that deep merging is not associative (why files are merged strictly in order); Props/C17_laws.lean "
+        "adds the laws callers lean on, for dictionaries well-formed at every depth (`Dict.DeepWF`): C17_idempotent "
+        "(merge a a = a), C17_absorb (the same overrides a second time change nothing), C17_empty_left / _empty_right, "
+        "C17_scalar_override_wins, C17_one_sided, C17_deep_wf; one generated case in ten is an instance of one of them "
+        "(b = a; a = an earlier merge with b). The correspondence "
         "runs merge_config and `merge` on the same generated pairs and requires identical results (order included).",
         "Partial: 'neither argument is modified' and 'returns a new dict' are object-identity facts a pure model "
-        "cannot express; they are decided on the implementation only (deep snapshot before/after on every case).",
+        "cannot express; they are decided on the implementation only (deep snapshot before/after on every case; after every "
+        "call the harness writes into the result and calls again on equal arguments: results share no state).",
         "8/C17",
     ),
 }
